@@ -816,6 +816,18 @@ def _c02_program(r):
         progs = generate(int(gm.group(1)), int(gm.group(2)) + 1)
         mod = build_module("kf_regen", [progs[-1]])
         return mod.PROCS.get(r["seed"])
+    if re.fullmatch(r"t[mi]\d+(_\w+)?", str(r.get("seed"))):
+        from .tight import mem_family, idx_family
+        from .mutate_src import build_module
+
+        fam = [x for x in mem_family() + idx_family() if x[0] == r["seed"]]
+        mod = build_module("kf_tight", fam)
+        p = mod.PROCS.get(r["seed"])
+        if p is not None and str(r.get("program", "")).endswith("+simplify"):
+            from exo.stdlib.scheduling import simplify as _simp
+
+            p = _simp(p)
+        return p
     p = S.by_name(r["seed"])
     how = r.get("how")
     if how:
